@@ -150,7 +150,7 @@ func genExp(r *gen.Rand) string {
 // genJar draws a history. Path vocabulary by mode: 0 = cookies without a path or with "/" (the path test
 // cannot matter), 1 = cookie and request paths from a set in which none is a proper prefix of another
 // (both path tests agree), 2 = the full mix (K1 region likely). timed: one `s` cookie phase, a W, lookups.
-func genJar(r *gen.Rand, timed bool) []jarOp {
+func genJar(r *gen.Rand, timed, ticked bool) []jarOp {
 	var ops []jarOp
 	n := 3 + r.Intn(10)
 	val := func() string { return gen.Pick(r, []string{"v1", "v2", "v3", "x", ""}) + gen.I(r.Intn(10)) }
@@ -167,9 +167,13 @@ func genJar(r *gen.Rand, timed bool) []jarOp {
 	if r.Chance(1, 3) {
 		hosts = append(hosts, gen.Pick(r, jarHosts))
 	}
+	tick, nT := 0, 0 // ticked: the tick the history has reached, number of waits so far
 	exp := func(direct bool) string {
 		if timed && direct && r.Chance(1, 2) {
 			return "s"
+		}
+		if ticked && r.Chance(3, 5) && tick <= 6 {
+			return "t" + gen.I(tick+1+r.Intn(3)) // expires 1-3 ticks from now (at most t9)
 		}
 		return genExp(r)
 	}
@@ -182,7 +186,18 @@ func genJar(r *gen.Rand, timed bool) []jarOp {
 		ops = append(ops, jarOp{'S', []string{hx(hosts[0]), hx("tmp"), hx(val()), hx(gen.Pick(r, []string{"", "/"})), "s"}},
 			jarOp{'G', []string{hx(hosts[0]), hx("/")}})
 	}
+	if ticked {
+		// a cookie that is certainly seen alive in tick 0 and gone later
+		ops = append(ops, jarOp{'S', []string{hx(hosts[0]), hx("tmp"), hx(val()), hx(gen.Pick(r, []string{"", "/"})), "t" + gen.I(1+r.Intn(2))}},
+			jarOp{'G', []string{hx(hosts[0]), hx("/")}})
+	}
 	for i := 0; i < n; i++ {
+		if ticked && i > 0 && nT < 4 && r.Chance(1, 3) {
+			// let 1-2 ticks pass (cookies expire in between), then look
+			tick += 1 + r.Intn(2)
+			nT++
+			ops = append(ops, jarOp{'T', []string{gen.I(tick)}}, jarOp{'G', []string{hx(gen.Pick(r, hosts)), hx("/")}})
+		}
 		if i == wAt {
 			ops = append(ops, jarOp{'W', nil}, jarOp{'G', []string{hx(hosts[0]), hx("/")}})
 		}
@@ -213,6 +228,10 @@ func genJar(r *gen.Rand, timed bool) []jarOp {
 				ops = append(ops, jarOp{'G', []string{hx(h), hx(gen.Pick(r, rPaths))}})
 			}
 		}
+	}
+	if ticked {
+		tick += 1 + r.Intn(2)
+		ops = append(ops, jarOp{'T', []string{gen.I(tick)}})
 	}
 	// always end by looking at every host
 	for _, h := range hosts {
